@@ -893,3 +893,36 @@ Example nested_example :
   /\ prefix [CQ; CI 45 1; CI 42 3; CQ] ++ [102; 111; 111] ++ [10] = [62; 32; 45; 32; 42; 32; 32; 32; 62; 32; 102; 111; 111; 10]
   /\ weight [CQ; CI 45 1; CI 42 3; CQ] = 6 /\ Forall okc [CQ; CI 45 1; CI 42 3; CQ].
 Proof. repeat split; repeat constructor; lia. Qed.
+
+(* ---- C09 in every nesting of block quotes and list items: escaped text is one literal text token ---- *)
+From MD Require Import Lemmas.InlineEsc.
+
+Theorem parse_nested_escaped :
+  forall cfg rf cf lt (segs : list seg), wf segs -> line_ok (src_of segs) ->
+    mem_z 13 (src_of segs) = false -> mem_z 0 (src_of segs) = false ->
+  forall RA RB RC RD, c_rules (p_block cfg) = RA ++ nm_blockquote :: RB ++ nm_list :: RC ++ nm_paragraph :: RD ->
+    Forall (fun n => n = nm_table \/ n = nm_code \/ n = nm_fence) RA ->
+    Forall (fun n => n = nm_table \/ n = nm_code \/ n = nm_fence \/ n = nm_hr) RB ->
+    Forall (fun n => str_eqb n nm_paragraph = false) RC ->
+    p_core cfg = [n_normalize; n_block; n_inline; n_text_join] ->
+  forall ipre ipost, ic_rules (p_inline cfg) = ipre ++ n_escape :: ipost ->
+    Forall (fun n => n = n_text \/ n = n_linkify \/ n = n_newline) ipre -> In n_text ipre ->
+    ic_linkify (p_inline cfg) = false -> 0 < ic_maxNesting (p_inline cfg) ->
+  forall cs, Forall okc cs -> weight cs < c_maxNesting (p_block cfg) ->
+  forall env, exists p,
+    parse cfg rf cf lt (prefix cs ++ src_of segs ++ [10]) env = Ok (wrapc (src_of segs) cs 0 false [p], env)
+    /\ ttype p = s_text /\ tcontent p = text_of segs.
+Proof.
+  intros cfg rf cf lt segs Hwf Hs H13 H0 RA RB RC RD HC HA HB HCn Hcore ipre ipost HRi Hipre Hitext Hlink Hinest cs FO Hw env.
+  rewrite (parse_nested cfg rf cf lt (src_of segs) Hs H13 H0 RA RB RC RD HC HA HB HCn Hcore cs FO Hw env).
+  unfold inline_parse.
+  destruct (inline_parse_esc_with (p_inline cfg) rf cf lt (ifs (p_inline cfg) rf cf lt (inline_depth (p_inline cfg))) ipre ipost HRi Hipre Hitext Hlink Hinest segs env Hwf)
+    as (toks & IP & CT & TL).
+  rewrite IP. cbn [bind].
+  destruct (join_children_textlike toks TL) as [(-> & ->) | (p & -> & Hp & Cp)].
+  - exfalso. destruct Hs as [(c0 & body & E & _) _]. unfold contents in CT. cbn in CT.
+    destruct segs as [|[r|c] l]; [discriminate E| |].
+    + destruct Hwf as (Hne & _). unfold text_of in CT. cbn in CT. destruct r; [contradiction Hne; reflexivity | discriminate CT].
+    + unfold text_of in CT. cbn in CT. discriminate CT.
+  - exists p. split; [reflexivity|]. split; [exact Hp | rewrite Cp; exact CT].
+Qed.
